@@ -247,7 +247,9 @@ class AudioIO(object):
             except IndexError: # Empty list
               break # No more threads
 
-          if not self.wait:
+          if self.wait:
+            thread.play() # Resumes it if it's paused (or else: deadlock)
+          else:
             thread.stop()
           thread.join()
 
